@@ -4,6 +4,7 @@ mod bufpool;
 mod cancel;
 mod childproto;
 mod datagrams;
+mod dispatcher;
 mod fsmodel;
 mod kutil;
 mod lifecycle;
@@ -40,6 +41,7 @@ fn main() {
     scenarios.extend(bufpool::scenarios());
     scenarios.extend(cancel::scenarios());
     scenarios.extend(datagrams::scenarios());
+    scenarios.extend(dispatcher::scenarios());
     scenarios.extend(fsmodel::scenarios());
     scenarios.extend(lifecycle::scenarios());
     scenarios.extend(opsmix::scenarios());
